@@ -128,7 +128,10 @@ func (r *run) callStatic(fr *frame, st *State, callee *ssa.Function, args, bindi
 		return r.applyContract(fr, st, ct, callee.Signature, callee, args, reach, pos, key)
 	}
 	if r.canInline(callee) {
-		return r.inline(fr, st, callee, args, bindings, reach, ct)
+		if res, ok := r.tryInline(fr, st, callee, args, bindings, reach, ct); ok {
+			return res
+		}
+		return r.defaultResults(callee.Signature, st)
 	}
 	if callee.Synthetic != "" && callee.Blocks != nil && len(r.stack) < r.depthCap+2 {
 		// wrappers / thunks / bound methods: always followed
@@ -193,7 +196,7 @@ func (r *run) errorf(fr *frame, st *State, args []Val, reach string) Val {
 			r.assumed["abstraction: fmt.Errorf with non-constant format wraps nothing known"] = true
 		}
 	}
-	for _, g := range r.eng.ErrGlobs {
+	for _, g := range r.sentinels {
 		gt := r.globalInit(g).Term
 		var cs []string
 		for _, w := range wrapped {
@@ -205,7 +208,7 @@ func (r *run) errorf(fr *frame, st *State, args []Val, reach string) Val {
 }
 
 func (r *run) errNoSentinel(e string) {
-	for _, g := range r.eng.ErrGlobs {
+	for _, g := range r.sentinels {
 		gt := r.globalInit(g).Term
 		r.assume("true", fmt.Sprintf("(not (err_is %s %s))", e, gt))
 	}
@@ -361,6 +364,10 @@ func (r *run) applyContract(fr *frame, st *State, ct *Contract, sig *types.Signa
 	for _, en := range ct.Ensures {
 		r.assume(reach, r.specBool(env, en.Expr, en.Text))
 	}
+	for _, en := range ct.Defines {
+		r.assume(reach, r.specBool(env, en.Expr, en.Text))
+		r.assumed["determinism (result named by a spec function): "+ct.Key+": "+en.Text] = true
+	}
 	for _, u := range ct.Uses {
 		r.force = append(r.force, u)
 	}
@@ -514,4 +521,39 @@ func topLevelParts(s string) []string {
 		out = append(out, s[start:])
 	}
 	return out
+}
+
+// tryInline inlines a callee; if the callee's body is outside the supported subset the call
+// falls back to the default contract (total, pure, unconstrained) and says so.
+func (r *run) tryInline(fr *frame, st *State, callee *ssa.Function, args, bindings []Val, reach string, ct *Contract) (res []Val, ok bool) {
+	saved := st.clone()
+	nitems, nobls := len(r.items), len(r.obls)
+	depth := len(r.stack)
+	savedCounters := map[string]int{}
+	for k, v := range r.counters {
+		savedCounters[k] = v
+	}
+	defer func() {
+		if p := recover(); p != nil {
+			ee, isExec := p.(execError)
+			if !isExec {
+				panic(p)
+			}
+			*st = *saved
+			// keep declarations emitted so far (harmless), drop obligations of the failed attempt
+			kept := r.items[:nitems]
+			for _, it := range r.items[nitems:] {
+				if it.kind == 0 && strings.HasPrefix(it.text, "(declare-") {
+					kept = append(kept, it)
+				}
+			}
+			r.items = kept
+			r.obls = r.obls[:nobls]
+			r.counters = savedCounters
+			r.stack = r.stack[:depth]
+			r.assumed["default (total, pure, unconstrained result): "+callee.String()+" [body outside the supported subset: "+ee.msg+"]"] = true
+			res, ok = nil, false
+		}
+	}()
+	return r.inline(fr, st, callee, args, bindings, reach, ct), true
 }
